@@ -27,6 +27,7 @@ import (
 	"strings"
 	"testing"
 
+	"github.com/btcsuite/btcd/btcec/v2"
 	"github.com/btcsuite/btcd/txscript/v2"
 	"github.com/btcsuite/btcd/wire/v2"
 	"github.com/lightningnetwork/lnd/channeldb"
@@ -275,6 +276,8 @@ func (c *c04Run) check() {
 				vn, h, hint, c0405B2i(seqOK), cheaterTx.LockTime, len(cheaterTx.TxOut),
 				len(anchors), nHtlcOut, c0405B2i(cs != nil))
 
+			c.revlogLine(vn, h, st, cst, cp, ckr, cheaterTx, htlcByIdx, cs != nil)
+
 			terms := p.terms(cp)
 			var primary *BreachRetribution
 			primaryDigest := ""
@@ -428,6 +431,90 @@ func (c *c04Run) check() {
 			}
 		}
 	}
+}
+
+// revlogLine prints the victim's persisted revocation-log entry for height h next
+// to the cheater's real transaction in the abstract form the Lean model
+// (RevLog.scanIdx / C01.assignFrom) works on: outputs as value:scriptId:cltv
+// (script ids by first occurrence; cltv = the HTLC expiry the sort used, taken
+// from the CHEATER's snapshot), the two commitment scripts as derived from the
+// cheater's own key ring, and the HTLC entries in log order with the pkScript
+// the victim computes for them.
+func (c *c04Run) revlogLine(vn string, h uint64, st, cst *chanstate.OpenChannel,
+	cp *btcec.PublicKey, ckr *CommitmentKeyRing, tx *wire.MsgTx,
+	htlcByIdx map[uint32]channeldb.HTLC, signed bool) {
+
+	if !signed {
+		return
+	}
+	res := "ok"
+	var line strings.Builder
+	func() {
+		defer c0405Recover(&res)
+		rl, _, err := st.FindPreviousState(h)
+		if err != nil || rl == nil {
+			res = "nolog"
+			return
+		}
+		sid := map[string]int{}
+		id := func(pk []byte) int {
+			k := string(pk)
+			if v, ok := sid[k]; ok {
+				return v
+			}
+			sid[k] = len(sid) + 1
+			return sid[k]
+		}
+		hid := map[[32]byte]int{}
+		hidOf := func(hh [32]byte) int {
+			if v, ok := hid[hh]; ok {
+				return v
+			}
+			hid[hh] = len(hid) + 1
+			return hid[hh]
+		}
+		var outs []string
+		for i, o := range tx.TxOut {
+			cltv := uint32(0)
+			if ht, ok := htlcByIdx[uint32(i)]; ok {
+				cltv = ht.RefundTimeout
+			}
+			outs = append(outs, fmt.Sprintf("%d:%d:%d", o.Value, id(o.PkScript), cltv))
+		}
+		var lease uint32
+		if cst.ChanType.HasLeaseExpiration() {
+			lease = cst.ThawHeight
+		}
+		theirS, err := CommitScriptToSelf(cst.ChanType, cst.IsInitiator, ckr.ToLocalKey,
+			ckr.RevocationKey, uint32(cst.LocalChanCfg.CsvDelay), lease, input.NoneTapLeaf())
+		if err != nil {
+			res = "err:toself"
+			return
+		}
+		ourS, _, err := CommitScriptToRemote(cst.ChanType, cst.IsInitiator, ckr.ToRemoteKey,
+			lease, input.NoneTapLeaf())
+		if err != nil {
+			res = "err:toremote"
+			return
+		}
+		vkr := DeriveCommitmentKeys(cp, lntypes.Remote, st.ChanType, &st.LocalChanCfg, &st.RemoteChanCfg)
+		var hts []string
+		for _, e := range rl.HTLCEntries {
+			si, err := genHtlcScript(st.ChanType, e.Incoming.Val, lntypes.Remote,
+				e.RefundTimeout.Val, e.RHash.Val, vkr, input.NoneTapLeaf())
+			if err != nil {
+				res = "err:htlcscript"
+				return
+			}
+			hts = append(hts, fmt.Sprintf("%d:%d:%d:%d:%d:%d", e.OutputIndex.Val,
+				uint64(e.Amt.Val.Int()), hidOf(e.RHash.Val), e.RefundTimeout.Val,
+				c0405B2i(e.Incoming.Val), id(si.PkScript())))
+		}
+		fmt.Fprintf(&line, "ours=%d theirs=%d ourS=%d theirS=%d outs=%s htlcs=%s",
+			rl.OurOutputIndex.Val, rl.TheirOutputIndex.Val, id(ourS.PkScript()), id(theirS.PkScript()),
+			strings.Join(outs, ","), strings.Join(append(hts, ""), ","))
+	}()
+	c.pf("revlog v=%s h=%d %s => %s\n", vn, h, line.String(), res)
 }
 
 func TestVerifC04(t *testing.T) {
